@@ -7,7 +7,7 @@
    alerts of every level and description, application data, records the record layer rejects, end of stream. *)
 From Coq Require Import List NArith Arith Bool Lia.
 From GmsmVerif Require Import Lib.Outcome HS.HSTerms HS.HSModel HS.HSParsers HS.HSParserProofs HS.HSProofs
-     HS.HSClientFlight HS.HSTlsClientFlight HS.HSServerFlight HS.HSTablesTie Gen.HSTables.
+     HS.HSClientFlight HS.HSTlsClientFlight HS.HSServerFlight HS.HSRecords HS.HSTablesTie Gen.HSTables.
 Import ListNotations.
 Local Open Scope N_scope.
 
@@ -94,6 +94,43 @@ Proof.
   eapply server_run_strip; [exact H|reflexivity].
 Qed.
 Print Assumptions C15_server_complete_only_on_honest_flight.
+
+(* ---- 2b. records ------------------------------------------------------------------------------------------ *)
+(* The same at the level of RECORDS (HSModel.rrun): a record carries any number of handshake messages, a
+   ChangeCipherSpec is a record of its own, readFinished reads the next record whatever is still buffered, and handshake
+   data must not span the ChangeCipherSpec.  For every sequence of records: never a panic or a hang; and if the
+   record-level run completes then the message-level run on the flattened sequence completes in the same state, so
+   the honest-flight theorems above apply to it; in particular a Finished sent in the clear in front of the
+   ChangeCipherSpec - alone or coalesced with the previous message - never leads to completion. *)
+Theorem C15_records_no_panic_no_hang : forall ccfg scfg recs,
+  client_rrun ccfg recs <> RPanic /\ client_rrun ccfg recs <> RHang /\
+  server_rrun scfg recs <> RPanic /\ server_rrun scfg recs <> RHang.
+Proof.
+  intros ccfg scfg recs. destruct (client_rrun_safe ccfg recs). destruct (server_rrun_safe scfg recs). auto.
+Qed.
+Print Assumptions C15_records_no_panic_no_hang.
+
+Theorem C15_records_complete_only_as_messages : forall ccfg scfg recs,
+  (forall st', client_rrun ccfg recs = RComplete st' -> client_run ccfg (flatten recs) = RComplete st') /\
+  (forall st', server_rrun scfg recs = RComplete st' -> server_run scfg (flatten recs) = RComplete st').
+Proof.
+  intros ccfg scfg recs. split; intros st' H.
+  - rewrite <- H. apply client_rrun_final. rewrite H. exact I.
+  - rewrite <- H. apply server_rrun_final. rewrite H. exact I.
+Qed.
+Print Assumptions C15_records_complete_only_as_messages.
+
+(* handshake messages still buffered when the endpoint turns to wait for the ChangeCipherSpec: whatever records follow,
+   the handshake does not complete (nor panic, nor hang) *)
+Theorem C15_buffered_handshake_data_at_ccs_never_completes : forall ccfg scfg cst sst recs,
+  (client_wants_ccs cst = true -> ~ final (rrun (client_step ccfg) client_wants_ccs cst true recs)) /\
+  (server_wants_ccs sst = true -> ~ final (rrun (server_step scfg) server_wants_ccs sst true recs)).
+Proof.
+  intros ccfg scfg cst sst recs. split; intros Hw.
+  - apply rrun_stuck; [apply client_other|apply client_step_eof|exact Hw].
+  - apply rrun_stuck; [apply server_other|apply server_step_eof|exact Hw].
+Qed.
+Print Assumptions C15_buffered_handshake_data_at_ccs_never_completes.
 
 (* ---- 3. version gate ------------------------------------------------------------------------------------ *)
 (* Every 16-bit ClientHello version, per mode: rejected, or GMSSL, or SSL 3.0 / TLS 1.0-1.2 (the code as it is:
@@ -218,4 +255,28 @@ Example C15_parsers_examples :
   ecc_skx_prefix [0; 1; 9] = Ok [9] /\ ecc_skx_prefix [0; 0] = Err 1 /\
   certificateRequestMsgGM_unmarshal 20 [13; 0; 0; 9; 2; 1; 64; 0; 4; 0; 2; 5; 6] = Ok ([1; 64], [[5; 6]]) /\
   read_handshakes 20 [] [[20; 0; 0]; [1; 7; 14]; [0; 0; 0]] [] = Ok ([(20, 1%nat); (14, 0%nat)], 1%nat).
+Proof. vm_compute. repeat split; reflexivity. Qed.
+
+(* record packing around the ChangeCipherSpec, with the GENUINE messages of an honest client (valid key exchange and
+   verify_data): the regular packing and a legal coalescing complete; the genuine Finished in the clear in front of the
+   ChangeCipherSpec - coalesced with the ClientKeyExchange, or as its own record - is an error *)
+Definition ex_second_flight : sstate * list hitem :=
+  let c0 := client_init ex_client in
+  let '(s1, _) := feed (server_step (ex_server GMOnly 0)) server_init PRunning (map to_input (cs_out c0)) in
+  let '(c1, _) := feed (client_step ex_client) (cs_clear_out c0) PRunning (map to_input (ss_out s1)) in
+  (ss_clear_out s1, flat_map (fun o => match o with OHs m => [HMsg m] | OCCS => [] end) (cs_out c1)).
+
+Definition ex_pack (packing : list hitem -> list record) : pstat :=
+  let '(s1, msgs) := ex_second_flight in
+  snd (rfeed (server_step (ex_server GMOnly 0)) server_wants_ccs s1 false PRunning (packing msgs)).
+
+Example C15_record_packing :
+  (* ClientKeyExchange | CCS | Finished *)
+  ex_pack (fun m => match m with [ckx; fin] => [RHs [ckx]; RCCS true; RHs [fin]] | _ => [] end) = PDone /\
+  (* ClientKeyExchange + Finished | CCS *)
+  ex_pack (fun m => match m with [ckx; fin] => [RHs [ckx; fin]; RCCS true] | _ => [] end) = PFailed /\
+  (* ClientKeyExchange | Finished | CCS *)
+  ex_pack (fun m => match m with [ckx; fin] => [RHs [ckx]; RHs [fin]; RCCS true] | _ => [] end) = PFailed /\
+  (* ClientKeyExchange | CCS | CCS | Finished *)
+  ex_pack (fun m => match m with [ckx; fin] => [RHs [ckx]; RCCS true; RCCS true; RHs [fin]] | _ => [] end) = PFailed.
 Proof. vm_compute. repeat split; reflexivity. Qed.
